@@ -1240,3 +1240,39 @@ Definition run_C03_rtree (fuel : nat) (globs : list (str * list str)) (unpacks :
       | RErr => VE (bs "Error"%bs)
       | RFuel => VE (bs "OutOfFuel"%bs)
       end].
+
+(* ------------------------------------------------------------------ which plugin function the entry points call
+   (main.py:272-285 iter_, 347-354 read, 389-394 read_fts, 436-446 write, 476-483 write_fts), as a function of which functions
+   the plugin module offers and of the mode string *)
+Inductive pfun := PRead | PIter | PWrite | PAppend | PNoSupport.      (* PNoSupport: RuntimeError *)
+Definition flags := (bool * (bool * (bool * bool)))%type.             (* read_, iter_, write_, append_ *)
+Definition dispatch_read (s : flags) : pfun := let '(r, (i, _)) := s in if r then PRead else if i then PIter else PNoSupport.
+Definition dispatch_iter (s : flags) : pfun := let '(r, (i, _)) := s in if i then PIter else if r then PRead else PNoSupport.
+Definition dispatch_read_fts (s : flags) : pfun := let '(r, _) := s in if r then PRead else PNoSupport.
+(* write(..., mode=m): append_<fmt> per object if it exists and 'a' in m, else write_<fmt>, else append_<fmt> if 'w' in m *)
+Definition dispatch_write (mode : str) (s : flags) : pfun :=
+  let '(_, (_, (w, a))) := s in
+  if a && contains (bs "a"%bs) mode then PAppend
+  else if w then PWrite
+  else if a && contains (bs "w"%bs) mode then PAppend
+  else PNoSupport.
+Definition dispatch_write_fts (s : flags) : pfun := let '(_, (_, (w, _))) := s in if w then PWrite else PNoSupport.
+Definition v_pfun (p : pfun) : val :=
+  match p with
+  | PRead => VS (bs "read"%bs) | PIter => VS (bs "iter"%bs) | PWrite => VS (bs "write"%bs) | PAppend => VS (bs "append"%bs)
+  | PNoSupport => VE (bs "RuntimeError"%bs)
+  end.
+(* entry: 0 read, 1 iter_, 2 write, 3 read_fts, 4 write_fts *)
+Definition run_C03_dispatch (entry : N) (mode : str) (r i w a : bool) : val :=
+  let s := (r, (i, (w, a))) in
+  VL [VB true; v_pfun (match entry with
+                       | 0%N => dispatch_read s | 1%N => dispatch_iter s | 2%N => dispatch_write mode s
+                       | 3%N => dispatch_read_fts s | _ => dispatch_write_fts s
+                       end)].
+
+(* ------------------------------------------------------------------ which file objects get a text layer: _is_binary_handle
+   (main.py:31-41) as a function of three facts read off the object: instance of io.BufferedIOBase / io.RawIOBase, has an
+   `encoding` attribute, 'b' in str(mode attribute) *)
+Definition is_binary_handle (io_binary has_encoding mode_b : bool) : bool := io_binary || (negb has_encoding && mode_b).
+Definition run_C03_hkind (io_binary has_encoding mode_b : bool) : val :=
+  VL [VB true; VB (is_binary_handle io_binary has_encoding mode_b)].
